@@ -144,7 +144,14 @@ pub fn c23(out: &mut Out, ex: &mut Exec, seed: u64, thorough: bool) {
     NON_ASCII_LABELS.with(|c| c.set(true));
     // random case, Unicode-aware (the generated non-ASCII letters have single-character case mappings of equal UTF-8 length)
     let rc = |rng: &mut Rng, s: &str| -> String { s.chars().map(|c| if rng.bool() { c.to_uppercase().next().unwrap() } else { c.to_lowercase().next().unwrap() }).collect() };
-    for _ in 0..n {
+    // for labels with letters whose upper-casing changes the byte length only the ASCII letters change case (the query keeps the
+    // byte length of the spelling, as the property's "span text is the label's first occurrence" needs)
+    let rc_full = |rng: &mut Rng, s: &str| -> String { s.chars().map(|c| if rng.bool() { c.to_uppercase().next().unwrap() } else { c.to_lowercase().next().unwrap() }).collect() };
+    let rc_ascii = |rng: &mut Rng, s: &str| -> String { s.chars().map(|c| if !c.is_ascii() { c } else if rng.bool() { c.to_ascii_uppercase() } else { c.to_ascii_lowercase() }).collect() };
+    for i in 0..n {
+        let lenchg = i % 4 == 3;
+        crate::proggen::LEN_CHANGING_LABELS.with(|c| c.set(lenchg));
+        let rc = |rng: &mut Rng, s: &str| -> String { if lenchg { rc_ascii(rng, s) } else { rc(rng, s) } };
         let mut stmts = gen_single(&mut rng, 16, true);
         // repeated labels on one address, in another case
         if rng.chance(1, 3) { let l = layout(&stmts); if let Some((_, v)) = l.binds.iter().find(|(_, v)| !v.1) { let name = v.2.clone(); if let Some(s) = stmts.iter_mut().find(|s| s.labels.iter().any(|x| *x == name)) { s.labels.push(rc(&mut rng, &name)); } } }
@@ -156,21 +163,27 @@ pub fn c23(out: &mut Out, ex: &mut Exec, seed: u64, thorough: bool) {
         let got: BTreeMap<String, (u16, bool)> = dump_labels(&r).into_iter().map(|(n, a, _, e)| (n, (a, e))).collect();
         if got != exp.labels { out.fail(out.lines, format!("label listing differs: got {:?} want {:?}", got, exp.labels), line.clone()); }
         let srcs: BTreeMap<String, usize> = dump_labels(&r).into_iter().map(|(n, _, s, _)| (n, s)).collect();
+        let first_spelling: BTreeMap<String, String> = layout(&stmts).binds.iter().map(|(k, v)| (k.clone(), v.2.clone())).collect();
         for (name, (addr, _ext)) in &exp.labels {
-            for _ in 0..2 {
-                let q = rc(&mut rng, name);
+            for qi in 0..2 {
+                // length-changing programs: one query is the first spelling with its ASCII letters in random case (must work
+                // exactly), the other a random-case spelling of the upper-cased name, whose byte length may differ from the
+                // spelling in the text: get_label_source takes the span length from the query (finding F23)
+                let spelled = first_spelling.get(name).cloned().unwrap_or_else(|| name.clone());
+                let q = if lenchg && qi == 0 { rc_ascii(&mut rng, &spelled) } else if lenchg { rc_full(&mut rng, name) } else { rc(&mut rng, name) };
+                let f23 = if q.len() != spelled.len() { "F23:query-spelling-of-different-byte-length " } else { "" };
                 let a = run(out, ex, &format!("oq s lookup {}", hx(&q))); out.evaluations += 1;
                 if a != format!("{:04x}", addr) { out.fail(out.lines, format!("lookup_label({q:?}) = {a}, expected {:04x}", addr), format!("{line}\noq s lookup {}", hx(&q))); }
                 let sp = run(out, ex, &format!("oq s src {}", hx(&q))); out.evaluations += 1;
                 match sp.split_once("..").and_then(|(a, b)| Some((a.parse::<usize>().ok()?, b.parse::<usize>().ok()?))) {
                     Some((a, b)) if a <= b && b <= text.len() && text.is_char_boundary(a) && text.is_char_boundary(b) => {
-                        if up(&text[a..b]) != *name { out.fail(out.lines, format!("get_label_source({q:?}) covers {:?}, not a spelling of {name}", &text[a..b]), format!("{line}\noq s src {}", hx(&q))); }
+                        if up(&text[a..b]) != *name { out.fail(out.lines, format!("{f23}get_label_source({q:?}) covers {:?}, not a spelling of {name}", &text[a..b]), format!("{line}\noq s src {}", hx(&q))); }
                         // first occurrence: no earlier definition or declaration of the name
                         if srcs.get(name) != Some(&a) { out.fail(out.lines, format!("get_label_source({q:?}) starts at {a}, table says {:?}", srcs.get(name)), line.clone()); }
                         let first = first_occurrence(&text, name);
                         if first != Some(a) { out.fail(out.lines, format!("get_label_source({q:?}) = {a}..{b} is not the label's first occurrence as a definition/declaration ({first:?}) in {text:?}"), format!("{line}\noq s src {}", hx(&q))); }
                     }
-                    _ => out.fail(out.lines, format!("get_label_source({q:?}) = {sp} for a label of the program"), format!("{line}\noq s src {}", hx(&q))),
+                    _ => out.fail(out.lines, format!("{f23}get_label_source({q:?}) = {sp} for a label of the program"), format!("{line}\noq s src {}", hx(&q))),
                 }
             }
             let rv = run(out, ex, &format!("oq s rev {:04x}", addr)); out.evaluations += 1;
@@ -186,7 +199,7 @@ pub fn c23(out: &mut Out, ex: &mut Exec, seed: u64, thorough: bool) {
         if seen.insert(text.clone()) { out.nontrivial += 1; }
         out.hist.hit(&format!("labels_{}", exp.labels.len().min(6)));
     }
-    out.rule = "generated programs (ASCII labels in mixed case, repeated labels on one address, labels on .end lines, .external declarations), assembled with debug symbols; for every label, under two random-case spellings: lookup_label, get_label_source (span text = a spelling of the label, = its first defining occurrence), labels recorded at its address (real rev_lookup_label must return one of them), full listing with addresses and external flags; absent names answer nothing; all answers also compared with the model".into();
+    out.rule = "generated programs (labels in mixed case with non-ASCII letters, every fourth program with letters whose upper-casing changes the UTF-8 length; repeated labels on one address, labels on .end lines, .external declarations), assembled with debug symbols; for every label, under two random-case spellings: lookup_label, get_label_source (span text = a spelling of the label, = its first defining occurrence), labels recorded at its address (real rev_lookup_label must return one of them), full listing with addresses and external flags; absent names answer nothing; all answers also compared with the model".into();
 }
 
 /// byte offset of the first occurrence of `name` (case-insensitive) as a label definition or .external operand: the first token
